@@ -3,6 +3,8 @@
 //        the whole unit list is copied into an exact-size heap block (ASan redzones border it);
 //        the converter is called with (content, offset, end_offset = <end>), end <= number of units.
 //   s2nlen <w> <units>               ->  same through the (content, length) overload, offset not reported ("-")
+//   s2nlong <prefix> <fill> <count> <suffix> -> (8-bit units) the text prefix ++ fill^count ++ suffix built here
+//        (count up to 2^31; a 10^8-unit text cannot travel through the pipe as a unit list), same output as s2n
 //   s2nstrtod <units>                ->  16 hex digits of strtod() on the text (second opinion only; never a verdict)
 #include "common.hpp"
 #include "Digit.hpp"
@@ -56,6 +58,28 @@ int main() {
             else if (t[1] == "4") vh::emit(doConvLen<char32_t>(u));
             else if (t[1] == "W") vh::emit(doConvLen<wchar_t>(u));
             else vh::emit("bad-op");
+        } else if (t.size() == 5 && t[0] == "s2nlong" && vh::parse_nats(t[1], u) && vh::parse_nats(t[2], a) &&
+                   vh::parse_nats(t[3], b) && a.size() == 1 && b.size() == 1 && b[0] <= (1ULL << 31)) {
+            std::vector<uint64_t> sfx;
+            if (!vh::parse_nats(t[4], sfx)) {
+                vh::emit("bad-op");
+                continue;
+            }
+            const size_t n   = u.size() + size_t(b[0]) + sfx.size();
+            char        *buf = static_cast<char *>(malloc(n ? n : 1)); // exact size: ASan redzones border it
+            size_t       k   = 0;
+            for (uint64_t x : u) buf[k++] = char(x);
+            memset(buf + k, int(a[0]), size_t(b[0]));
+            k += size_t(b[0]);
+            for (uint64_t x : sfx) buf[k++] = char(x);
+            QNumber64 q;
+            q.Natural           = 0xDEADBEEFDEADBEEFULL;
+            SizeT             offset = 0;
+            const QNumberType ty     = Digit::StringToNumber(q, static_cast<const char *>(buf), offset, SizeT(n));
+            free(buf);
+            char out[64];
+            snprintf(out, sizeof out, "%d %s %u", int(ty), hex16(q.Natural).c_str(), unsigned(offset));
+            vh::emit(out);
         } else if (t.size() == 2 && t[0] == "s2nstrtod" && vh::parse_nats(t[1], u)) {
             std::string s;
             for (auto c : u) s.push_back(c < 128 ? char(c) : '?');
